@@ -84,7 +84,7 @@ def cases(draw):
                                     st.booleans(), st.one_of(st.none(), st.none(), sub)).map(list), min_size=1, max_size=3))
     if forced_reads:
         reads = forced_reads + reads[:1]
-    return {"hsalt": draw(st.integers(0, 15)), "threads": draw(st.sampled_from(["sync", "async"])), "fmt": draw(st.sampled_from(["sdmf", "mdmf", "mdmf"])), "k": k, "n": n, "servers": servers, "steps": steps, "reads": reads,
+    return {"hsalt": draw(st.integers(0, 15)), "threads": draw(st.sampled_from(["sync", "async", "held"])), "fmt": draw(st.sampled_from(["sdmf", "mdmf", "mdmf"])), "k": k, "n": n, "servers": servers, "steps": steps, "reads": reads,
             "pad": draw(st.sampled_from([0, 0, 0, 4500 * k] if not forced_reads else [4500 * k, 4500 * k, 0])),
             # a modify() by the writer during which another write-cap holder publishes (between the writer's read and its publish): the retry must read what its new survey shows
             "modrace": draw(st.sampled_from([None, None, None, "modify"]))}
@@ -100,7 +100,7 @@ def seq_of(data):
 
 def run_case(case, ctx):
     from vf import boot as _boot
-    _boot.set_thread_mode(case.get("threads") == "async")      # defer_to_thread answered in a later reactor turn (as in production) or synchronously
+    _boot.set_thread_mode(case.get("threads") or "sync")      # defer_to_thread answered in a later reactor turn (as in production) or synchronously
     k, n, fmt = case["k"], case["n"], case["fmt"]
     mutfile.set_segsize(16)
     g = Grid(ctx.casedir(), case["servers"], {"k": k, "n": n, "happy": 1, "max_segment_size": 131072})
